@@ -4,6 +4,7 @@ package eng
 
 import (
 	"bufio"
+	"bytes"
 	"encoding/json"
 	"fmt"
 	"io"
@@ -135,7 +136,8 @@ func (p *Pool) Start() {
 					}
 				}
 				raw, err := p.roundTrip(w, t.in)
-				if err != nil {
+				if err != nil || bytes.Contains(raw, []byte(`"Restart":true`)) {
+					// dead, hung, or asking to be replaced (it left a goroutine behind that never ends)
 					w.kill()
 					w = nil
 				}
@@ -176,7 +178,7 @@ func (p *Pool) roundTrip(w *worker, in any) (json.RawMessage, error) {
 	}()
 	// The guard is not a wall-clock deadline (a loaded machine must never produce a verdict):
 	// a task is declared hung when its worker has been *idle* for a whole guard period
-	// (blocked: less than 2% of it spent on the CPU), or when it has *burnt* 15 guard periods of
+	// (blocked: less than 2% of it spent on the CPU), or when it has *burnt* 4 guard periods of
 	// CPU time on this one task (spinning). A worker that is merely slow is waited for.
 	start := time.Now()
 	cpu0 := procCPU(w.cmd.Process.Pid)
@@ -214,7 +216,7 @@ func (p *Pool) roundTrip(w *worker, in any) (json.RawMessage, error) {
 			if w := now.Sub(samples[0].at); w >= p.Guard && cpu-samples[0].cpu < w/50 {
 				return nil, ErrHung
 			}
-			if cpu-cpu0 >= 15*p.Guard {
+			if cpu-cpu0 >= 4*p.Guard {
 				return nil, ErrHung
 			}
 		}
